@@ -247,12 +247,22 @@ CHECKS.update({
    design_ref='DESIGN.md 4 (C34)'),
 })
 
+CHECKS.update({
+ 'C27': dict(
+   category='exploration', engine='symx', note=PTRUST,
+   technique='path-forking symbolic execution (symx) of whole real model_from_str / model_from_file loads in which declared and given parameter names are opaque symbolic name atoms (str subclass, z3-decided equality); acceptance compared per path with a z3 formula (validity under the path condition); closure inspected after accepted loads; counterexamples replayed with concrete names',
+   text=("Path-exhaustive over equality patterns of symbolic names: 0-2 declared and 0-2 given parameter names, three providers (ImportURI search path, ImportURI glob, GlobalRepo), "
+         "three load kinds (file, string with file name, string), global repository on/off, a three-file import closure with a cycle: the load is rejected with 'unknown parameter' "
+         "exactly when z3 proves under the path condition that some given name equals no declared one, and after an accepted load every model of the closure exposes exactly the given "
+         "names and values."),
+   design_ref='DESIGN.md 4 (C27)'),
+})
+
 NA = {
  'C16': "history quantifier over whole-program API calls; no data dimension to make symbolic — only enumeration of concrete call sequences would remain (DESIGN.md 5)",
  'C17': "decided by file-system I/O, glob, abspath and repository objects handed between nested real loads; only enumeration of import graphs would remain (DESIGN.md 5)",
  'C18': "same code and obstacle as C17 crossed with fault points; enumeration of concrete runs only (DESIGN.md 5)",
  'C25': "driven by os.path manipulation and recursive metamodel_from_file over directories, lookup through dicts keyed by concrete strings; only enumeration of file trees would remain (DESIGN.md 5)",
- 'C27': "the only code with data to quantify over is the four-line check_params; the substance is plumbing of one object through callbacks on I/O paths (DESIGN.md 5)",
 }
 PENDING = "check not built yet in this round (design in DESIGN.md 4); not claimed until its check exists"
 
